@@ -33,7 +33,7 @@ func layout(tier string) (e1, im, br int) {
 	if tier == ev.Thorough {
 		return 1600, 240, 800
 	}
-	return 64, 12, 40
+	return 48, 12, 32
 }
 
 const importsPerWorld = 10
@@ -57,7 +57,7 @@ func init() {
 			if t == ev.Thorough {
 				return 20000
 			}
-			return 900
+			return 700
 		},
 		Required: []string{"accept_agreed", "reject_agreed", "reject_too_few", "reject_duplicate", "reject_non_member", "reject_unrecoverable", "boundary_at_floor", "boundary_at_floor_plus_1", "threshold_reached_only_by_duplicate", "decode_rejected", "valid_item_reference_recovers_signer",
 			"import_accept_agreed", "import_reject_agreed", "blockresult_consume_agreed", "blockresult_reject_agreed"},
